@@ -86,8 +86,11 @@ class AstToDjangoQVisitor(visitor.NodeVisitor):
     def visit(self, node: ast._Node) -> Any:
         """:meta private:"""
         self._depth += 1
-        res = super().visit(node)
-        self._depth -= 1
+        try:
+            res = super().visit(node)
+        finally:
+            # Also when the node is refused, or the visitor cannot be reused:
+            self._depth -= 1
 
         if self._depth == 0:
             res = self._ensure_q(res)
